@@ -30,7 +30,7 @@ fn main() -> ExitCode {
     // or destination computer which responds to commands from the boss (this is a "doer").
     // The boss (CLI) and doer modes have different command-line arguments, so handle them separately.
     #[cfg(rjrssync_verif)]
-    if std::env::args().nth(1).as_deref() == Some("--verif-harness") { return verif_harness::main(); }
+    if std::env::args_os().nth(1).as_deref() == Some(std::ffi::OsStr::new("--verif-harness")) { return verif_harness::main(); }
     // (args_os rather than args, which panics on an argument that isn't valid Unicode - the
     // command-line parsers below report such an argument as a usage error instead.)
     if std::env::args_os().any(|a| a == "--doer") {
